@@ -6,6 +6,7 @@ import (
 	"sort"
 	"strings"
 	"sync/atomic"
+	"time"
 
 	"verif/internal/core"
 )
@@ -23,7 +24,7 @@ type c08Cfg struct {
 	Deps    [][2]int // i depends on j
 	EpicDep int      // 0 none, 1 E1->E2 (E1 depends on E2), 2 E2->E1
 	E2Gone  bool     // E2 pruned (only when it has no live child)
-	Variant int      // history variant: 0 plain, 1 every task re-assigned from another epic, 2 link/unlink noise, 3 reopened, 4 claim churn, 5 create events in reverse log order
+	Variant int      // history variant: 0 plain, 1 every task re-assigned from another epic, 2 link/unlink noise, 3 reopened, 4 claim churn, 5 create events in reverse log order, 6 legacy epic state/claim events
 }
 
 var c08Full = []c08Opt{
@@ -134,7 +135,7 @@ func (c c08Cfg) String() string {
 		sb.WriteString(" E2=pruned")
 	}
 	if c.Variant != 0 {
-		sb.WriteString(" history=" + []string{"plain", "reassigned", "link-unlink-noise", "reopened", "claim-churn", "creates-in-reverse-log-order"}[c.Variant])
+		sb.WriteString(" history=" + []string{"plain", "reassigned", "link-unlink-noise", "reopened", "claim-churn", "creates-in-reverse-log-order", "legacy-epic-state-events"}[c.Variant])
 	}
 	return sb.String()
 }
@@ -192,7 +193,20 @@ func (c c08Cfg) build() (core.Store, []string, [2]string) {
 			noise = append(noise, SynEdge{e[0], e[1]})
 		}
 	}
-	return synStoreOpts(items, edges, noise, c.Variant == 5), ids, e
+	st := synStoreOpts(items, edges, noise, c.Variant == 5)
+	if c.Variant == 6 {
+		// a log written by an older ergo: epics still carried state and claim events (they are replayed and kept by
+		// compact). E1 was "done", E2 "canceled" and claimed. None of that may matter to readiness or to prune.
+		l := newSynLog()
+		l.t = l.t.Add(24 * time.Hour)
+		l.State(e[0], "done")
+		if !c.E2Gone {
+			l.Claim(e[1], "old-agent")
+			l.State(e[1], "canceled")
+		}
+		st = st.WithLog(append(append([]byte{}, st.Log()...), l.Bytes()...))
+	}
+	return st, ids, e
 }
 
 // ---- reference predicates: literal transcription of the property sentence ---------------------
@@ -253,7 +267,7 @@ func runC08(env *core.Env) {
 		if len(cfgs[i].Tasks) > 2 && !env.Thorough() {
 			continue
 		}
-		for v := 1; v <= 5; v++ {
+		for v := 1; v <= 6; v++ {
 			c := cfgs[i]
 			c.Variant = v
 			cfgs = append(cfgs, c)
